@@ -21,17 +21,32 @@ shims.patch(blkmod, np=shims.np_shim)
 shims.patch(asmmod, np=shims.np_shim)
 shims.patch(gc, np=shims.np_shim)
 shims.patch(sgmod, np=shims.np_shim)
+shims.patch(hexmod, np=shims.np_shim, sqrt=shims.math_shim.sqrt, isclose=shims.math_shim.isclose)
 
 STUBS = ["composites.np / component.np / blocks.np / assemblies.np / geometryConverters.np / structuredGrid.np -> "
-         "object-array aware numpy shim", "component.float -> identity on proxies"]
+         "object-array aware numpy shim", "component.float -> identity on proxies",
+         "hexagonal.np / sqrt / isclose -> shims (index-level harness only; identity on plain numbers)"]
 
 THIRD = geometry.SymmetryType(geometry.DomainType.THIRD_CORE, geometry.BoundaryType.PERIODIC)
 FULL = geometry.SymmetryType(geometry.DomainType.FULL_CORE, geometry.BoundaryType.NO_SYMMETRY)
 
-# guarded obligations (candidate genuine defects, see report)
+# Guarded obligations: candidate genuine defects found by these harnesses (set a flag to False to see the violation).
+# Plain-Python reproductions (third-core mini reactor from harness/_util_C13.py, power = 100 on every block):
+#  restore_without_centre: cells (1,0),(1,1); convert(r); restorePreviousGeometry(r) -> TypeError ('NoneType' object
+#    is not iterable: getAssemblyWithStringLocation("001-001") is None).
+#  convert_drops_edge_assemblies: cells (0,0),(1,0),(2,-1); EdgeAssemblyChanger().addEdgeAssemblies(core);
+#    convert(r); restorePreviousGeometry(r) -> the edge assembly at 003-004 is gone (convert removes edge assemblies,
+#    restore only removes what convert added).
+#  centre_not_scaled_after_noop_addEdge: cells (0,0),(1,0) (nothing on the 0-degree line); addEdgeAssemblies(core)
+#    adds nothing but clears the SINCE_LAST_GEOMETRY_TRANSFORMATION flags; convert(r) then selects no parameter
+#    (.since(SINCE_LAST_GEOMETRY_TRANSFORMATION) is empty) and the centre power stays 100: total 400 instead of 600.
+#  edge_halves_need_ring3_edge: 5 rings, cells (0,0),(1,0),(4,-2); addEdgeAssemblies(core) -> both halves keep
+#    symmetry factor 1 (HexBlock.getSymmetryFactor looks for an edge assembly only at cell (-1,2)), core mass
+#    1913 g -> 2733 g.
 KNOWN_DEFECT_restore_without_centre = True
 KNOWN_DEFECT_convert_drops_edge_assemblies = True
 KNOWN_DEFECT_centre_not_scaled_after_noop_addEdge = True
+KNOWN_DEFECT_edge_halves_need_ring3_edge = True
 
 LAYOUTS = {
     "c+3": [(0, 0), (1, 0), (2, -1), (1, 1)],          # centre, ring 2, 0-degree line, interior of ring 3
@@ -86,7 +101,8 @@ def totals(core):
 
 def snapshot(core):
     """Observable state: assemblies (identity) by cell, names, per-block parameters, lookup tables."""
-    st = dict(cells={}, names={}, blocks={}, params={}, byLabel={}, symmetry=str(core.symmetry))
+    st = dict(cells={}, names={}, blocks={}, params={}, byLabel={}, byName={}, byBlockName={},
+              symmetry=str(core.symmetry))
     for a in core:
         ij = tuple(int(x) for x in a.spatialLocator.indices[:2])
         st["cells"][ij] = a
@@ -102,10 +118,12 @@ def snapshot(core):
             for nuc in U.NUCS:
                 vals["N " + nuc] = b.getNumberDensity(nuc)
             st["params"][(ij, k)] = vals
-    for ring in range(1, 4):
+    for ring in range(1, 6):
         for pos in range(1, (6 * (ring - 1) or 1) + 1):
             lab = "%03d-%03d" % (ring, pos)
             st["byLabel"][lab] = core.getAssemblyWithStringLocation(lab)
+    st["byName"] = dict(core.assembliesByName)
+    st["byBlockName"] = dict(core.blocksByName)
     return st
 
 
@@ -129,7 +147,7 @@ def check_lookups_truthful(ctx, core, what):
                   core.getAssemblyByName(a.getName()) is a)
 
 
-def check_same_state(ctx, core, before, what, canary_key=None):
+def check_same_state(ctx, core, before, what):
     """The core is back in the observable state `before` (same objects, places, parameters, lookups)."""
     now = snapshot(core)
     ctx.check("%s: symmetry restored" % what, now["symmetry"] == before["symmetry"])
@@ -144,14 +162,17 @@ def check_same_state(ctx, core, before, what, canary_key=None):
               all(now["blocks"][n] is b for n, b in before["blocks"].items()))
     ctx.check("%s: every location label resolves as before" % what,
               all(now["byLabel"][lab] is a for lab, a in before["byLabel"].items()))
+    ctx.check("%s: the name lookup tables resolve exactly as before" % what,
+              sorted(now["byName"]) == sorted(before["byName"]) and
+              all(core.getAssemblyByName(n) is a for n, a in before["byName"].items()) and
+              sorted(now["byBlockName"]) == sorted(before["byBlockName"]) and
+              all(core.getBlockByName(n) is b for n, b in before["byBlockName"].items()))
     for key, vals in before["params"].items():
         for pn, old in vals.items():
             got = now["params"][key][pn] if key in now["params"] else None
             if got is None:
                 ctx.check("%s: block %s still there" % (what, key), False)
                 continue
-            if canary_key is not None and (key, pn) == canary_key[:2]:
-                old = old * ITE(canary_key[2], 1.01, 1.0)
             ctx.check_close("%s: %s of block %s as before" % (what, pn, key), got, old, scale=abs(old) + 1e-30)
 
 
@@ -160,9 +181,10 @@ def check_same_state(ctx, core, before, what, canary_key=None):
                        "densities [0,10], 3 scalar + 2 two-group list/array volume-integrated parameters [0,1e9]",
          stubs=STUBS, qtimeout_ms=20000,
          instances={"quick": [dict(layout="c+3", nblocks=1), dict(layout="holes", nblocks=2),
-                              dict(layout="c+1", nblocks=1)],
+                              dict(layout="c+1", nblocks=1), dict(layout="nocentre", nblocks=1)],
                     "thorough": [dict(layout="c+3", nblocks=2), dict(layout="ring3", nblocks=1),
-                                 dict(layout="holes", nblocks=2), dict(layout="c+1", nblocks=3)]})
+                                 dict(layout="holes", nblocks=2), dict(layout="c+1", nblocks=3),
+                                 dict(layout="nocentre", nblocks=2)]})
 def third_to_full_multiplies_by_three_and_restores(ctx, layout, nblocks):
     cells = LAYOUTS[layout]
     r, core, asms, S = build(ctx, cells, nblocks)
@@ -253,9 +275,325 @@ def third_to_full_multiplies_by_three_and_restores(ctx, layout, nblocks):
                         S[ai]["p"][(0, "adjMgFlux")][0], scale=S[ai]["p"][(0, "adjMgFlux")][0] + 1e-30)
 
     # ---- undo
-    changer.restorePreviousGeometry(r)
+    try:
+        changer.restorePreviousGeometry(r)
+        undone = True
+    except TypeError:
+        undone = False
+    if not (KNOWN_DEFECT_restore_without_centre and not hasCentre):
+        ctx.check("restorePreviousGeometry completes", undone)
+    if not undone:
+        ctx.note("KNOWN_DEFECT_restore_without_centre: restorePreviousGeometry raises TypeError when the core has "
+                 "no centre assembly; the undo obligations are skipped for this layout")
+        return
     check_same_state(ctx, core, before, "restored")
     check_lookups_truthful(ctx, core, "restored")
     tot2 = totals(core)
     for key, old in tot0.items():
         ctx.check_close("restored %s = original" % key, tot2[key], old, scale=old + 1e-30)
+
+
+# ---------------------------------------------------------------------------------------------------------------
+# edge assemblies
+
+EDGE_LAYOUTS = {
+    "line3": ([(0, 0), (1, 0), (2, -1)], 3),                 # one assembly on the 0-degree line (ring 3)
+    "line3+5": ([(0, 0), (2, -1), (1, 1), (4, -2)], 5),      # two of them (rings 3 and 5)
+    "noline": ([(0, 0), (1, 0), (1, 1)], 3),                 # nothing on the line: add/remove are no-ops
+    "line5only": ([(0, 0), (1, 0), (4, -2)], 5),             # hole at the ring-3 line cell
+}
+
+
+def _edge_cells(cells):
+    """Cells on the 0-degree symmetry line (y = 0, x > 0  <=>  i = -2j > 0) and their 120-degree images."""
+    return [((i, j), U.rot120(i, j, 1)) for (i, j) in cells if i == -2 * j and i > 0]
+
+
+@harness("C13", bounds="third-core mini reactor (3 or 5 rings) with 0, 1 or 2 assemblies on the 0-degree line; "
+                       "symbolic per block as above", stubs=STUBS, qtimeout_ms=20000,
+         instances={"quick": [dict(layout="line3", nblocks=1), dict(layout="line3+5", nblocks=1),
+                              dict(layout="noline", nblocks=1), dict(layout="line5only", nblocks=1)],
+                    "thorough": [dict(layout="line3", nblocks=2), dict(layout="line3+5", nblocks=2),
+                                 dict(layout="noline", nblocks=2), dict(layout="line5only", nblocks=2)]})
+def edge_add_then_remove_is_identity(ctx, layout, nblocks):
+    cells, numRings = EDGE_LAYOUTS[layout]
+    r, core, asms, S = build(ctx, cells, nblocks, numRings=numRings)
+    before = snapshot(core)
+    tot0 = totals(core)
+    pairs = _edge_cells(cells)
+    ec = gc.EdgeAssemblyChanger()
+    ec.addEdgeAssemblies(core)
+    # HexBlock.getSymmetryFactor recognises edge assemblies only through cell (-1, 2) (ring 3)
+    halvesSeen = (2, -1) in cells or not pairs
+    skipHalves = KNOWN_DEFECT_edge_halves_need_ring3_edge and not halvesSeen
+    if skipHalves:
+        ctx.note("KNOWN_DEFECT_edge_halves_need_ring3_edge: with a hole at the ring-3 line cell the edge halves are "
+                 "not recognised (symmetry factor 1, mass double counted); those obligations are skipped")
+
+    now = snapshot(core)
+    ctx.check("still a third core", core.symmetry == THIRD)
+    ctx.check_eq("one edge assembly per assembly on the 0-degree line", len(core), len(cells) + len(pairs))
+    ctx.check("exactly the 120-degree images of the line cells were added",
+              set(now["cells"]) == set(cells) | set(e for _, e in pairs))
+    check_lookups_truthful(ctx, core, "with edges")
+    names = [a.getName() for a in core]
+    ctx.check("names unique with edges", len(set(names)) == len(names))
+    for (lo, up) in pairs:
+        src, cp = now["cells"][lo], now["cells"].get(up)
+        ctx.check("edge cell %s filled by a new object" % (up,), cp is not None and all(cp is not a for a in asms))
+        if cp is None:
+            continue
+        ctx.check("edge assembly lies on the 120-degree line, its source on the 0-degree line",
+                  cp.isOnWhichSymmetryLine() == grids.BOUNDARY_120_DEGREES and
+                  src.isOnWhichSymmetryLine() == grids.BOUNDARY_0_DEGREES)
+        for k in range(nblocks):
+            if not skipHalves:
+                ctx.check("both halves are cut in two", src[k].getSymmetryFactor() == 2.0 and
+                          cp[k].getSymmetryFactor() == 2.0)
+            for pn in ("height",) + tuple("N " + n for n in U.NUCS):
+                ctx.check_close("edge copy has the source's %s" % pn, now["params"][(up, k)][pn],
+                                now["params"][(lo, k)][pn], scale=abs(now["params"][(lo, k)][pn]) + 1e-30)
+    # two halves make one whole: the modelled mass and volume do not change
+    tot1 = totals(core)
+    for key in ["mass " + n for n in U.NUCS] + ["volume"]:
+        want = tot0[key]
+        if not skipHalves:
+            ctx.check_close("with edges: %s unchanged" % key, tot1[key], want, scale=want + 1e-30)
+
+    # nothing re-assigned in between: scaling must not touch anything, removal restores the previous state
+    gc.EdgeAssemblyChanger.scaleParamsRelatedToSymmetry(core)
+    ec.removeEdgeAssemblies(core)
+    check_same_state(ctx, core, before, "edges removed")
+    check_lookups_truthful(ctx, core, "edges removed")
+    tot2 = totals(core)
+    for key, old in tot0.items():
+        if ctx.canary and key == "volume":
+            old = old * ITE(S[0]["h"][0] > 399, 1.01, 1.0)
+        ctx.check_close("edges removed: %s = original" % key, tot2[key], old, scale=old + 1e-30)
+    # a second round trip with the same changer object behaves the same
+    ec.addEdgeAssemblies(core)
+    ctx.check_eq("second add: edge assemblies are back", len(core), len(cells) + len(pairs))
+    ec.removeEdgeAssemblies(core)
+    check_same_state(ctx, core, before, "edges removed again")
+
+
+@harness("C13", bounds="as above; after adding edges both halves get fresh symbolic (half-assembly) values of power "
+                       "[1e-3,1e9], a two-group list flux and a two-group array flux; optional subset argument",
+         stubs=STUBS, qtimeout_ms=20000,
+         instances={"quick": [dict(layout="line3", subset=None), dict(layout="line3+5", subset=None),
+                              dict(layout="line3", subset=["power"])],
+                    "thorough": [dict(layout="line3", subset=None), dict(layout="line3+5", subset=None),
+                                 dict(layout="line3", subset=["power"]), dict(layout="line3+5", subset=["mgFlux"])]})
+def edge_scale_then_remove_combines_two_halves(ctx, layout, subset):
+    """Docstring of scaleParamsRelatedToSymmetry: scaling then removing the symmetric identicals is identical to
+    combining two half assemblies into a full one."""
+    cells, numRings = EDGE_LAYOUTS[layout]
+    r, core, asms, S = build(ctx, cells, 1, numRings=numRings)
+    pairs = _edge_cells(cells)
+    ec = gc.EdgeAssemblyChanger()
+    ec.addEdgeAssemblies(core)
+    byCell = {tuple(int(x) for x in a.spatialLocator.indices[:2]): a for a in core}
+    # "physics" writes half-assembly results on every block on a symmetry line
+    half = {}
+    for n, (lo, up) in enumerate(pairs):
+        for side, cell in (("lo", lo), ("up", up)):
+            b = byCell[cell][0]
+            v = dict(power=ctx.real("hp_%s%d" % (side, n), 1e-3, 1e9),
+                     adjMgFlux=[ctx.real("hadj_%s%d_g%d" % (side, n, g), 1e-3, 1e9) for g in range(NG)],
+                     mgFlux=[ctx.real("hmg_%s%d_g%d" % (side, n, g), 1e-3, 1e9) for g in range(NG)])
+            b.p.power = v["power"]
+            b.p.adjMgFlux = list(v["adjMgFlux"])
+            b.p.mgFlux = list(v["mgFlux"])
+            half[(n, side)] = v
+    untouched = {c: (byCell[c][0].p.power, byCell[c][0].p.kgHM) for c in cells if c not in [p[0] for p in pairs]}
+    volHalves = {n: byCell[lo][0].getVolume() + byCell[up][0].getVolume() for n, (lo, up) in enumerate(pairs)}
+    totBefore = sum(b.p.power for a in core for b in a)
+
+    gc.EdgeAssemblyChanger.scaleParamsRelatedToSymmetry(core, paramsToScaleSubset=subset)
+    ec.removeEdgeAssemblies(core)
+
+    ctx.check_eq("edge assemblies gone", len(core), len(cells))
+    sel = lambda pn: subset is None or pn in subset
+    for n, (lo, up) in enumerate(pairs):
+        b = byCell[lo][0]
+        l, u = half[(n, "lo")], half[(n, "up")]
+        want = l["power"] + u["power"] if sel("power") else l["power"]
+        if ctx.canary and n == 0:
+            want = want + u["power"] * ITE(l["power"] > 5e8, 0.01, 0.0)
+        ctx.check_close("whole assembly power = sum of its two halves", b.p.power, want, scale=want)
+        ctx.check("the assembly on the line is whole again", b.getSymmetryFactor() == 1.0)
+        for pn in ("adjMgFlux", "mgFlux"):
+            for g in range(NG):
+                want = l[pn][g] + u[pn][g] if sel(pn) else l[pn][g]
+                ctx.check_close("whole assembly %s[%d] = sum of its two halves" % (pn, g), b.p[pn][g], want,
+                                scale=want)
+        if sel("mgFlux"):
+            want = sum(l["mgFlux"][g] + u["mgFlux"][g] for g in range(NG))
+            ctx.check_close("scalar flux x (volume of both halves) = total of the combined group fluxes",
+                            b.p.flux * volHalves[n], want, scale=want)
+    for c, (pw, kg) in untouched.items():
+        ctx.check_close("assembly %s off the line keeps its power" % (c,), byCell[c][0].p.power, pw, scale=pw + 1e-30)
+        ctx.check_close("assembly %s off the line keeps its kgHM" % (c,), byCell[c][0].p.kgHM, kg, scale=kg + 1e-30)
+    if sel("power"):
+        totAfter = sum(b.p.power for a in core for b in a)
+        ctx.check_close("total power is conserved by scale + remove", totAfter, totBefore, scale=totBefore)
+    check_lookups_truthful(ctx, core, "combined")
+
+
+# ---------------------------------------------------------------------------------------------------------------
+# histories
+
+OPS = ("convert", "restore", "addEdge", "removeEdge")
+
+
+@harness("C13", bounds="every sequence of K operations from {convert, restore, add-edge, remove-edge} (first one "
+                       "per instance, the others symbolic and forked; K=3 quick, 4 thorough) on a third-core mini "
+                       "reactor with / without an assembly on the 0-degree line; one changer object of each kind; "
+                       "symbolic block parameters as above", stubs=STUBS, qtimeout_ms=20000, max_paths=400,
+         instances={"quick": [dict(layout="line3", first=op, K=3) for op in OPS] +
+                             [dict(layout="noline", first="addEdge", K=2), dict(layout="noline", first="convert", K=2)],
+                    "thorough": [dict(layout=lay, first=op, K=4) for lay in ("line3", "noline", "line3+5")
+                                 for op in OPS]})
+def histories_of_conversions_keep_the_model(ctx, layout, first, K):
+    """Reference model: T = third core without edges (the initial state), E = third core with edge assemblies,
+    F = full core.  convert: T|E -> F (times three), restore: back to the state before the last convert,
+    add-edge: T -> E (if anything sits on the 0-degree line), remove-edge: E -> T; everything else is a no-op."""
+    cells, numRings = EDGE_LAYOUTS[layout]
+    r, core, asms, S = build(ctx, cells, 1, numRings=numRings)
+    pairs = _edge_cells(cells)
+    n0 = len(cells)
+    hasCentre = (0, 0) in cells
+    changer = gc.ThirdCoreHexToFullCoreChanger(Settings())
+    ec = gc.EdgeAssemblyChanger()
+    base = snapshot(core)
+    baseTot = totals(core)
+    model, snapE, beforeConvert = "T", None, None
+    flagsReset = False      # add-edge ran without adding anything (resets the 'assigned since geometry change' flags)
+    centreUnscaled = False
+    ops = []
+    for step in range(K):
+        op = first if step == 0 else ctx.choice("op%d" % step, OPS)
+        ops.append(op)
+        what = "after " + ">".join(ops)
+        if op == "convert":
+            changer.convert(r)
+            if model != "F":
+                beforeConvert = (model, snapE)
+                centreUnscaled = flagsReset and hasCentre
+                model = "F"
+        elif op == "restore":
+            changer.restorePreviousGeometry(r)
+            if model == "F":
+                model, snapE = beforeConvert
+                if model == "E" and KNOWN_DEFECT_convert_drops_edge_assemblies:
+                    ctx.note("KNOWN_DEFECT_convert_drops_edge_assemblies: convert removes edge assemblies and restore "
+                             "does not bring them back; model continues from the edge-free state")
+                    model, snapE = "T", None
+                    ec = gc.EdgeAssemblyChanger()   # the user's changer still believes its edges are there
+        elif op == "addEdge":
+            ec.addEdgeAssemblies(core)
+            if model == "T":
+                if pairs:
+                    model, snapE = "E", snapshot(core)
+                else:
+                    flagsReset = True
+        elif op == "removeEdge":
+            ec.removeEdgeAssemblies(core)
+            if model == "E":
+                model, snapE = "T", None
+
+        check_lookups_truthful(ctx, core, what)
+        tot = totals(core)
+        if model == "T":
+            check_same_state(ctx, core, base, what + " (third core)")
+            for key, old in baseTot.items():
+                ctx.check_close("%s: %s = initial" % (what, key), tot[key], old, scale=old + 1e-30)
+        elif model == "E":
+            check_same_state(ctx, core, snapE, what + " (with edges)")
+        else:
+            ctx.check("%s: full core" % what, core.isFullCore)
+            ctx.check_eq("%s: 3 n - 2 [centre] assemblies" % what, len(core), 3 * n0 - (2 if hasCentre else 0))
+            for key, old in baseTot.items():
+                integrated = not (key.startswith("mass") or key == "volume")
+                if integrated and centreUnscaled and KNOWN_DEFECT_centre_not_scaled_after_noop_addEdge:
+                    ctx.note("KNOWN_DEFECT_centre_not_scaled_after_noop_addEdge: convert after an add-edge that added "
+                             "nothing leaves the centre assembly's volume-integrated parameters at one third")
+                    continue
+                want = 3 * old
+                if ctx.canary and key == "power" and step == K - 1:
+                    want = want * ITE(S[0]["h"][0] > 399, 1.01, 1.0)
+                ctx.check_close("%s: %s = 3 x third-core value" % (what, key), tot[key], want, scale=want + 1e-30)
+            for ai, (i, j) in enumerate(cells):
+                got = [core.childrenByLocator.get(core.spatialGrid[c + (0,)]) for c in
+                       ((i, j), U.rot120(i, j, 1), U.rot120(i, j, 2))]
+                ctx.check("%s: source assembly %d in place, images filled" % (what, ai),
+                          got[0] is asms[ai] and all(g is not None for g in got))
+    if ctx.canary and model != "F":
+        ctx.check_close("canary (histories ending outside the full core)", totals(core)["power"],
+                        baseTot["power"] * ITE(S[0]["h"][0] > 399, 1.01, 1.0), scale=baseTot["power"] + 1e-30)
+
+
+# ---------------------------------------------------------------------------------------------------------------
+# index level (all integer cells)
+
+
+@harness("C13", bounds="all integer cells (i1,j1), (i2,j2) (unbounded Int) of a third-core hex grid", stubs=STUBS)
+def growth_places_every_full_core_cell_exactly_once(ctx):
+    """The converter places the copies of the assembly at cell c at grid.getSymmetricEquivalents(c).  For ALL first-
+    third cells these are the two 120-degree index images (the oracle used by the reactor-level harnesses; that
+    they are the geometric images is C08), and the cells generated from two different first-third cells never
+    coincide, so growing fills each full-core cell at most once (that every cell is reached is C08's orbit lemma)."""
+    from armi.reactor.grids.hexagonal import HexGrid
+    from armi.reactor.grids.locations import IndexLocation
+    g = HexGrid.fromPitch(1.0, numRings=1, symmetry="third periodic")
+    i1, j1, i2, j2 = ctx.int("i1"), ctx.int("j1"), ctx.int("i2"), ctx.int("j2")
+    ctx.assume(OR(i1 != 0, j1 != 0))
+    ctx.assume(bool(g.locatorInDomain(IndexLocation(i1, j1, 0, g))))
+    eq1 = g.getSymmetricEquivalents((i1, j1, 0))
+    ctx.check("two equivalents off centre", len(eq1) == 2)
+    gen1 = [(i1, j1)]
+    for m, e in enumerate(eq1):
+        wi, wj = U.rot120(i1, j1, m + 1)
+        if ctx.canary and m == 1:
+            wi = wi + ITE(AND(i1 == 7, j1 == 2), 1, 0)
+        ctx.check("equivalent %d = index image under %d degrees" % (m, 120 * (m + 1)), AND(e[0] == wi, e[1] == wj))
+        ctx.check("image %d lies outside the modelled third (no collision with a source assembly)" % m,
+                  NOT(g.locatorInDomain(IndexLocation(e[0], e[1], 0, g))))
+        gen1.append((e[0], e[1]))
+    ctx.check("the centre has no equivalents", len(g.getSymmetricEquivalents((0, 0, 0))) == 0)
+    # a second, different first-third cell generates three other cells
+    ctx.assume(OR(i2 != i1, j2 != j1))
+    ctx.assume(bool(g.locatorInDomain(IndexLocation(i2, j2, 0, g))))
+    gen2 = [(i2, j2)] + [(e[0], e[1]) for e in g.getSymmetricEquivalents((i2, j2, 0))]
+    for a in gen1:
+        for b in gen2:
+            ctx.check("cells generated from different sources differ", OR(a[0] != b[0], a[1] != b[1]))
+
+
+@harness("C13", bounds="all integer cells (unbounded Int) of a third-core hex grid", stubs=STUBS)
+def edge_cells_are_the_images_of_the_zero_degree_line(ctx):
+    """add-edge copies an assembly on the 0-degree line to the first symmetric equivalent; for ALL cells this lands
+    on the 120-degree line, inside the domain-with-overlap that Core.add accepts, and outside the plain domain;
+    conversely every 120-degree-line cell (the ones remove-edge drops) is such an image."""
+    from armi.reactor.grids.hexagonal import HexGrid
+    from armi.reactor.grids.locations import IndexLocation
+    g = HexGrid.fromPitch(1.0, numRings=1, symmetry="third periodic")
+    i, j = ctx.int("i"), ctx.int("j")
+    line = g.overlapsWhichSymmetryLine((i, j))
+    if line == grids.BOUNDARY_0_DEGREES:
+        ctx.check("0-degree line  <=>  i = -2j > 0 (oracle used by the reactor-level harnesses)",
+                  AND(i == -2 * j, i > 0))
+        e = g.getSymmetricEquivalents((i, j, 0))[0]
+        tgt = IndexLocation(e[0], e[1], 0, g)
+        ok = g.overlapsWhichSymmetryLine((e[0], e[1])) == grids.BOUNDARY_120_DEGREES
+        if ctx.canary:
+            ok = AND(ok, NOT(AND(i == 6, j == -3)))
+        ctx.check("edge target is on the 120-degree line", ok)
+        ctx.check("edge target is accepted with symmetry overlap only",
+                  AND(g.locatorInDomain(tgt, symmetryOverlap=True), NOT(g.locatorInDomain(tgt))))
+    else:
+        ctx.check("not on the 0-degree line", NOT(AND(i == -2 * j, i > 0)))
+    if line == grids.BOUNDARY_120_DEGREES:
+        bi, bj = U.rot120(i, j, 2)       # rotate back by 120 degrees
+        ctx.check("a 120-degree-line cell is the image of a 0-degree-line cell",
+                  g.overlapsWhichSymmetryLine((bi, bj)) == grids.BOUNDARY_0_DEGREES)
